@@ -115,18 +115,18 @@ def shapes(tier):
     for e, lab in (("Y", "num"), ("S$", "str"), ("Y + S$", "mixed"), ("S$ < T$", "strcmp"), ("Y ; S$ , 1", "list")):
         out.append(("print %s" % lab, "PRINT %s" % e, True, False, "quick" if lab in ("mixed", "strcmp") else "thorough"))
     out.append(("for num", "FOR I = Y TO Z", False, False, "quick"))
-    out.append(("for strvar", "FOR I$ = 1 TO 2", False, False, "quick"))
-    out.append(("for str from", "FOR I = S$ TO 2", False, False, "quick"))
+    out.append(("for strvar", "FOR I$ = 1 TO 2", False, False, "thorough"))
+    out.append(("for str from", "FOR I = S$ TO 2", False, False, "thorough"))
     out.append(("for str step", "FOR I = 1 TO 2 STEP S$", False, False, "thorough"))
-    out.append(("dim str subscript", "DIM A(S$)", True, False, "quick"))
+    out.append(("dim str subscript", "DIM A(S$)", True, False, "thorough"))
     out.append(("dim num subscript", "DIM A(Y)", True, False, "thorough"))
-    out.append(("array cell str to num", 'A(1) = S$', True, False, "quick"))
+    out.append(("array cell str to num", 'A(1) = S$', True, False, "thorough"))
     out.append(("array read str subscript", 'X = A(S$)', True, False, "thorough"))
-    out.append(("array cell str second subscript", 'A(1, S$) = 5', True, False, "quick"))
-    out.append(("array read str second subscript", 'X = A(1, S$)', True, False, "quick"))
-    out.append(("dim str second subscript", 'DIM A(2, S$)', True, False, "quick"))
+    out.append(("array cell str second subscript", 'A(1, S$) = 5', True, False, "thorough"))
+    out.append(("array read str second subscript", 'X = A(1, S$)', True, False, "thorough"))
+    out.append(("dim str second subscript", 'DIM A(2, S$)', True, False, "thorough"))
     out.append(("array read 3 subscripts str last", 'X = A(1, 2, S$)', True, False, "thorough"))
-    out.append(("missing operand", "X = Y +", True, False, "quick"))
+    out.append(("missing operand", "X = Y +", True, False, "thorough"))
     out.append(("missing equals", "X Y", True, False, "quick"))
     out.append(("stray token", ") = 1", True, False, "thorough"))
     out.append(("unbalanced paren", "X = (Y + 1", True, False, "quick"))
@@ -153,7 +153,7 @@ def generate(prop, tier, seed):
         assert name not in seen_names, name
         seen_names.add(name)
         w0 = "true" if with0 else "false"
-        out += '\n// @verif prop=C06 tier=%s timeout=900 mem=6000 cost=80 arms=1 clause="checker accepts => no SYNTAX/TYPE MISMATCH/UNDEF\'D STATEMENT for any variable values; checker rejects a straight-line statement => it fails when executed from a fresh state"\n' % t
+        out += '\n// @verif prop=C06 tier=%s timeout=%d mem=%d cost=80 arms=1 clause="checker accepts => no SYNTAX/TYPE MISMATCH/UNDEF\'D STATEMENT for any variable values; checker rejects a straight-line statement => it fails when executed from a fresh state"\n' % (t, 900 if t == "quick" else 2400, 6000 if t == "quick" else 20000)
         out += '// @verif sample="10 %s ; variables Y,Z any of 9 numbers, S$,T$ any of 4 strings" bounds="one statement; variable values by symbolic selector"\n' % text.replace('"', "'")
         out += "#[kani::proof]\n#[kani::unwind(14)]\n" + STUBS
         out += "fn %s() {\n" % name
